@@ -509,7 +509,7 @@ let make_m1 (params : string list) : machine =
        | [ "rm"; k ] -> v2cur := LDel (bytes_of_tok k) :: !v2cur
        | [ "save" ] -> v2hist := HVersion (List.rev !v2cur) :: !v2hist; v2cur := []
        | [ "x"; "prune"; n ] when res = "ok" -> v2hist := HPrune (z_of_string n) :: !v2hist
-       | [ "x"; "oraw" ] | "r" :: _ | [ "hash" ] | [ "whash" ] -> ()
+       | [ "x"; "oraw" ] | [ "x"; "lfraw" ] | "r" :: _ | [ "hash" ] | [ "whash" ] -> ()
        | _ -> v2ok := false) in
   (* the legacy key space (LegacyStore.ldb): written by the legacy library's history, then
      carried through the new library's rollbacks and deletions (rollback_legacy, prune_legacy,
@@ -697,6 +697,25 @@ let make_m1 (params : string list) : machine =
                       let rs = List.map (fun ((v, _), cp) -> string_of_z v ^ (if cp then "c" else ""))
                           (List.sort (fun ((a, _), _) ((b, _), _) -> compare (int_of_z a) (int_of_z b)) st.roots) in
                       "oraw(o=" ^ String.concat "," os ^ ";b=" ^ String.concat "," bs ^ ";r=" ^ String.concat "," rs ^ ")"))
+        | [ "x"; "lfraw" ] ->
+            (* the leaf side of the v2 change-log database: leaf row keys, leaf_delete rows and
+               leaf_orphan rows of V2Leaves.ls_run on the recorded history (the model covers
+               heightFilter > 0: leaves leave memory at every commit) *)
+            (match (if !v2ok && List.mem "hf=1" v2cfg then v2interval else None) with
+             | None -> "*"
+             | Some iv ->
+                 (match ls_run_sha (z_of_int iv) ls_empty (List.rev !v2hist) with
+                  | None -> "lfraw(model:run-refused)"
+                  | Some s ->
+                      let st = s.ls_store in
+                      let cmpk (a, b) (c, d) = compare (int_of_z a, int_of_z b) (int_of_z c, int_of_z d) in
+                      let key (a, b) = Printf.sprintf "%d.%d" (int_of_z a) (int_of_z b) in
+                      let ls = List.map key (List.sort cmpk (List.map fst st.leaves)) in
+                      let ds = List.map (fun (k, b) -> key k ^ ":" ^ hex_of_bytes b)
+                          (List.sort (fun (a, _) (b, _) -> cmpk a b) st.ldeletes) in
+                      let os = List.map (fun (k, at) -> key k ^ "@" ^ string_of_z at)
+                          (List.sort (fun (k1, a1) (k2, a2) -> let c = cmpk k1 k2 in if c <> 0 then c else compare (int_of_z a1) (int_of_z a2)) st.lorphans) in
+                      "lfraw(l=" ^ String.concat "," ls ^ ";d=" ^ String.concat "," ds ^ ";o=" ^ String.concat "," os ^ ")"))
         | [ "x"; "lraw" ] ->
             (* the legacy key space: node hashes, orphan records (to.from.hash) and root records -
                as the legacy library left it (LegacyStore.legacy_history on the recorded history),
